@@ -202,6 +202,7 @@ def run(rep, tier):
         rep.call(nearest_no_alpha, rep, prog, "C07.nearest-no-alpha")
         rep.call(alpha_rules.alpha_set, rep, prog, "C07.alpha-set")
         rep.call(simd_rules.lane_bypass, rep, prog, "C07.lane-bypass")
+        rep.call(alpha_rules.zero_guard, rep, prog, "C07.zero-guard")
         from . import c09
         rep.call(c09.sizing, rep, prog, "C07.premultiply-whole")
         rep.call(c09.write_before_read, rep, prog, "C07.premultiply-before-read")
